@@ -198,11 +198,12 @@ def pwl_on(rng, T, inner):
     return x, pw_values(rng, len(x) - 1), pw_values(rng, len(x) - 1)
 
 
-def disc_on(rng, T, inner):
+def disc_on(rng, T, inner, free_edges=False):
     x = [Fr(0)] + [Fr(v) for v in inner] + [Fr(T)]
     mp = [Fr(rng.randint(1, 3)) for _ in x]
     y = [Fr(rng.randint(0, int(m))) for m in mp]
-    if len(x) > 2:
+    if len(x) > 2 and not free_edges:
+        # as the profile routines write them: the edge entries repeat their neighbours
         y[0], mp[0], y[-1], mp[-1] = y[1], mp[1], y[-2], mp[-2]
     return x, y, mp
 
@@ -219,6 +220,8 @@ def add_cases(rng, T):
             yield 'add_pwc', list(pwc_on(rng, T, i1)) + list(pwc_on(rng, T, i2)), tg
             yield 'add_pwl', list(pwl_on(rng, T, i1)) + list(pwl_on(rng, T, i2)), tg
             yield 'add_disc', list(disc_on(rng, T, i1)) + list(disc_on(rng, T, i2)), tg
+            # edge entries with values of their own (they never count, but `add` must add them too)
+            yield 'add_disc', list(disc_on(rng, T, i1, True)) + list(disc_on(rng, T, i2, True)), tg + ['free-edge-entries']
     # breakpoints / event times that differ by 2^-20 only (a tolerant comparison would fuse them)
     e = Fr(1, 2 ** 20)
     for i1 in inner:
